@@ -49,3 +49,8 @@ func VerifCheckAndPropagateArgs(class string, methodT *base.T, args []*base.T) s
 	}
 	return ""
 }
+
+// VerifIsAncestorNode exposes isAncestorNode (the ancestor walk behind the protected-method check).
+func VerifIsAncestorNode(node, target base.ClassNode) bool {
+	return isAncestorNode(node, target, map[base.ClassNode]bool{})
+}
